@@ -262,6 +262,14 @@ func immutableType(t reflect.Type) (bool, string) {
 		if name == "objectClass" {
 			return true, "objectClass table (package-level, function pointers)"
 		}
+		if name == "goMapObject" || name == "goStructObject" || name == "goArrayObject" {
+			// wrapper around embedder-owned Go data (map / pointer / array): its
+			// fields are written only at construction; the Go data behind it is
+			// common to all copies by construction (reference semantics of the
+			// value the embedder passed in). NOT goSliceObject: setLength
+			// replaces its slice header.
+			return true, "immutable wrapper of a bridged Go value"
+		}
 		if strings.HasPrefix(name, "node") && name != "nodeFunctionObject" {
 			return true, "compiled node tree"
 		}
